@@ -139,20 +139,21 @@ def expected_call(files_data, sets, service, env_service):
 FILE2 = ["absent", "overrides a nested component option and adds a logging section", "replaces a nested dict by a scalar and sets a top-level option",
          "sets a nested key to null"]
 SETS = ["none", "component.opts.x=5", "logging.loggers.a\\.b.level=DEBUG", "max_threads=7", "component.opts.nested.y=[1, 2]", "component.opts={z: 1}",
-        "component.opts.x=null", "component.opts.t=!Env C16_VAR", "component.opts.f=!TextFile secret.txt"]
+        "component.opts.x=null", "component.opts.t=!Env C16_VAR", "component.opts.f=!TextFile secret.txt",
+        "component.opts.dsn=postgresql://app@db/app?sslmode=require&x=1"]
 SET_VALUES = {1: ("component.opts.x", 5), 2: ("logging.loggers.a\\.b.level", "DEBUG"), 3: ("max_threads", 7), 4: ("component.opts.nested.y", [1, 2]),
               5: ("component.opts", {"z": 1}), 6: ("component.opts.x", None), 7: ("component.opts.t", "from-env"),
-              8: ("component.opts.f", "file-text\n")}
+              8: ("component.opts.f", "file-text\n"), 9: ("component.opts.dsn", "postgresql://app@db/app?sslmode=require&x=1")}
 TAGS = ["none", "!Env", "!TextFile", "!BinaryFile"]
 
 
 def prec_params(tier):
-    return [P("file2", 0, 3), P("set1", 0, 8), P("set2", 0, 8), P("tag", 0, 3), P("svc", 0, 1)]
+    return [P("file2", 0, 3), P("set1", 0, 9), P("set2", 0, 9), P("tag", 0, 3), P("svc", 0, 1)]
 
 
 @guard
 def prec_fn(a, tier):
-    f2, s1, s2, tag, svc = pick(a["file2"], 4), pick(a["set1"], 9), pick(a["set2"], 9), pick(a["tag"], 4), pick(a["svc"], 2)
+    f2, s1, s2, tag, svc = pick(a["file2"], 4), pick(a["set1"], 10), pick(a["set2"], 10), pick(a["tag"], 4), pick(a["svc"], 2)
     tagged_yaml = {0: "plain", 1: "!Env C16_VAR", 2: "!TextFile secret.txt", 3: "!BinaryFile secret.txt"}[tag]
     tagged_val = {0: "plain", 1: "from-env", 2: "file-text\n", 3: b"file-text\n"}[tag]
     comp = {"type": "mod:Cls", "opts": {"x": 1, "nested": {"y": 1, "keep": True}, "tagged": tagged_val}}
@@ -350,4 +351,61 @@ SPLIT = Harness(
     stubs=PREC.stubs,
 )
 
-HARNESSES = [PREC, SVC, SPLIT]
+
+# ------------------------------------------------------------------------------ P-alias
+ALIAS_OVERRIDES = ["port only", "a nested credentials key only", "port and a nested credentials key"]
+
+
+def alias_params(tier):
+    return [P("selected", 0, 1), P("target", 0, 1), P("shape", 0, 2), P("style", 0, 1)]
+
+
+@guard
+def alias_fn(a, tier):
+    selected, target, shape, style = pick(a["selected"], 2), pick(a["target"], 2), pick(a["shape"], 3), pick(a["style"], 2)
+    names = ["server", "client"]
+    broker = {"host": "mq.local", "port": 5672, "credentials": {"user": "shared", "password": "s3cret"}}
+    second = "*broker" if style == 0 else "{<<: *broker}"
+    y1 = ("services:\n  server:\n    component:\n      type: mod:Server\n      broker: &broker\n        host: mq.local\n        port: 5672\n"
+          "        credentials: {user: shared, password: s3cret}\n  client:\n    component:\n      type: mod:Client\n      broker: " + second + "\n")
+    d1 = {"services": {"server": {"component": {"type": "mod:Server", "broker": copy.deepcopy(broker)}},
+                       "client": {"component": {"type": "mod:Client", "broker": copy.deepcopy(broker)}}}}
+    over_broker = {}
+    if shape in (0, 2):
+        over_broker["port"] = 9000
+    if shape in (1, 2):
+        over_broker["credentials"] = {"user": "only-for-" + names[target]}
+    d2 = {"services": {names[target]: {"component": {"broker": over_broker}}}}
+    files = [y1, yaml.safe_dump(d2)]
+    summary = {"file1": "two services sharing one broker block through a YAML anchor (" + ["plain alias", "merge key <<"][style] + ")",
+               "file2_overrides": f"services.{names[target]}.component.broker: {ALIAS_OVERRIDES[shape]}", "--service": names[selected]}
+    # the same command line twice in one process, and the other service in between: no run may leak into the next
+    for attempt, sel in enumerate((selected, 1 - selected, selected)):
+        code, calls, text, exc = invoke(files, [], names[sel], None)
+        exp = expected_call([d1, d2], [], names[sel], None)
+        if code != 0 or len(calls) != 1:
+            return FAIL(f"alias:not-started:code={code}", f"{text} {exc!r}", summary)
+        (args, kwargs) = calls[0]
+        got = ("call", args[0], args[1], kwargs)
+        if got != exp:
+            untouched = sel != target
+            return FAIL(f"alias:{'override-for-the-other-service-leaked-into-the-selected-one' if untouched else 'override-not-applied-as-a-deep-merge'}:shape={shape}:style={style}:attempt={attempt}",
+                        f"got {got} expected {exp}", summary)
+    return OK(summary, True)
+
+
+ALIASH = Harness(
+    prop="C16",
+    name="P-alias",
+    fn=alias_fn,
+    params=alias_params,
+    cube=lambda tier: 0,
+    title="a block shared by two services through a YAML anchor; a later file overrides it for ONE of them",
+    bound_text=lambda tier: "file 1: services server/client whose component.broker is one anchored block (plain alias / merge key); file 2 overrides "
+    "broker.port and/or broker.credentials.user of one service; --service selects either; the command runs three times in one process (selected, other, selected)",
+    oracle="what run_application receives equals the reference pipeline on the expanded (alias-free) documents: the override reaches the addressed service only, as a deep merge",
+    outside="--set through an aliased node (the YAML data model makes both paths one node; not judged)",
+    stubs=PREC.stubs,
+)
+
+HARNESSES = [PREC, SVC, SPLIT, ALIASH]
